@@ -211,9 +211,9 @@ Turns3  == -3..3
 Turns1  == -1..1
 Turns0  == {0}
 OffsQuick    == {-8, -1, 1, 12}
-OffsThorough == {-11, -8, -6, -4, -1, 1, 2, 3, 6, 12}
+OffsThorough == {-11, -8, -6, -1, 1, 2, 6, 12}
 W0Quick      == {-3, 2}
-W0Thorough   == {-11, -3, -1, 0, 1, 2}
+W0Thorough   == {-11, -3, -1, 0, 2}
 W1All        == {1, 2}
 MTurnsQuick    == {-3}
 MTurnsThorough == {-3, -1, 1, 2}
